@@ -257,7 +257,8 @@ prop("C09", bounds=LOCK_BOUNDS,
          HS(30, "txfile.VerifFileConcurrent", "same with an Observer installed (the application watches FileStats): no data race on the statistics", "1 reader, 1 preemption, observer",
            quick={"params": {"readers": 1, "preempt": 1, "observer": 1}}, thorough={"params": {"readers": 2, "preempt": 1, "observer": 1}, "max_paths": 400000, "budget": "1200s"}),
          HS(200, "txfile.VerifLockProtocol", "same; a reader woken by the end of one commit while the next writer already holds pending and exclusive", "1R+2W, 2 preemptions",
-           quick={"params": {"readers": 1, "writers": 2, "preempt": 2}, "max_paths": 400000}, thorough={"params": {"readers": 2, "writers": 2, "preempt": 2}, "max_paths": 400000, "budget": "900s"}),
+           quick={"params": {"readers": 1, "writers": 2, "preempt": 2}, "max_paths": 400000}, thorough={"params": {"readers": 2, "writers": 2, "preempt": 2}, "max_paths": 400000, "budget": "900s"},
+           stress_params={"readers": 6, "writers": 2}, stress_repeat=6000),
          H("txfile.VerifCloseConcurrent", "File.Close while a transaction is open: waits for it, does not block readers the writer's owner starts, no deadlock", "read-only / write transaction, commit / rollback",
            thorough={"params": {"preempt": 1}}),
          H("txfile.VerifLockBalance", "every ending of a transaction (commit, rollback, close, failing commit; read-only close/commit/rollback) leaves the lock idle; Begin/BeginReadonly/Close return", "2 rounds x 7 endings, fault on write/sync at 2 ordinals"),
@@ -281,7 +282,8 @@ prop("C02", bounds=LOCK_BOUNDS + "; sequential shadow lemma: reader open across 
          HS(200, "txfile.VerifLockProtocol", "exclusive section (header switch) excludes shared sections", "2R+2W, 1 preemption",
            quick={"params": {"readers": 2, "writers": 2, "preempt": 1}}, thorough={"params": {"readers": 2, "writers": 2, "preempt": 2}, "max_paths": 400000, "budget": "900s"}),
          HS(200, "txfile.VerifLockProtocol", "same; a reader woken by the end of one commit while the next writer already holds pending and exclusive", "1R+2W, 2 preemptions",
-           quick={"params": {"readers": 1, "writers": 2, "preempt": 2}, "max_paths": 400000}, thorough={"params": {"readers": 2, "writers": 2, "preempt": 2}, "max_paths": 400000, "budget": "900s"}),
+           quick={"params": {"readers": 1, "writers": 2, "preempt": 2}, "max_paths": 400000}, thorough={"params": {"readers": 2, "writers": 2, "preempt": 2}, "max_paths": 400000, "budget": "900s"},
+           stress_params={"readers": 6, "writers": 2}, stress_repeat=6000),
          H("txfile.VerifShadow", "overwrite-log focus: overwrites and explicit (page) flushes only, 4 operations after a committed overwrite: an overwrite page released by the writer is still what readers read", "opset=3 nops=4",
            quick={"params": {"opset": 3, "nops": 4, "pre": 1}}, thorough={"params": {"opset": 3, "nops": 5, "pre": 1}, "max_paths": 400000, "budget": "1200s"}),
      ])
@@ -365,7 +367,8 @@ prop("C13", bounds=PQ_BOUNDS + "; one producer goroutine (Write, Next, optional 
             "2 events, 1 preemption", quick={"params": {"events": 2, "preempt": 1, "nsizes": 2}, "max_paths": 200000},
             thorough={"params": {"events": 2, "preempt": 1, "nsizes": 3}, "max_paths": 2000000, "budget": "1700s"}),
          HS(200, "txfile.VerifLockProtocol", "same; a reader woken by the end of one commit while the next writer already holds pending and exclusive", "1R+2W, 2 preemptions",
-           quick={"params": {"readers": 1, "writers": 2, "preempt": 2}, "max_paths": 400000}, thorough={"params": {"readers": 2, "writers": 2, "preempt": 2}, "max_paths": 400000, "budget": "900s"}),
+           quick={"params": {"readers": 1, "writers": 2, "preempt": 2}, "max_paths": 400000}, thorough={"params": {"readers": 2, "writers": 2, "preempt": 2}, "max_paths": 400000, "budget": "900s"},
+           stress_params={"readers": 6, "writers": 2}, stress_repeat=6000),
          H("pq.VerifQueueFIFO", "operation-level interleaving of producer and consumer steps incl. abandoned events and events arriving after the consumer reached the tail (sequential)", "2 events x 2 sizes x 3 read modes",
            quick={"params": {"events": 2, "nsizes": 2, "skip": 1}}, thorough={"params": {"events": 2, "nsizes": 3, "skip": 1}, "max_paths": 400000, "budget": "1500s"}),
      ])
